@@ -15,6 +15,19 @@ type StallMonitor struct {
 	stop  chan struct{}
 	done  chan struct{}
 	limit time.Duration
+	// gate is held by the monitor while it reads the clock and by Pause..Resume: a test that patches time.Now
+	// (rewriting its machine code) must not do so while another goroutine is executing it
+	gate    sync.Mutex
+	resumed bool
+}
+
+// Pause stops the monitor from reading the clock until Resume (no gaps are recorded in between).
+func (m *StallMonitor) Pause() { m.gate.Lock() }
+
+// Resume lets the monitor go on; the time it was paused for is not a gap.
+func (m *StallMonitor) Resume() {
+	m.resumed = true
+	m.gate.Unlock()
 }
 
 type stallGap struct {
@@ -34,7 +47,13 @@ func StartStallMonitor(limit time.Duration) *StallMonitor {
 			default:
 			}
 			time.Sleep(2 * time.Millisecond)
+			m.gate.Lock()
 			now := time.Now()
+			if m.resumed {
+				m.resumed = false
+				last = now
+			}
+			m.gate.Unlock()
 			if now.Sub(last) > fineLimit {
 				m.mu.Lock()
 				m.gaps = append(m.gaps, stallGap{last, now})
